@@ -2369,7 +2369,10 @@ bool NifFile::GetNodeTransformToGlobal(const std::string& nodeName, MatTransform
 
 		MatTransform xform = node->GetTransformToParent();
 		NiNode* parent = GetParentNode(node);
-		while (parent) {
+
+		// Stop at a node that was already visited (cyclic child references)
+		std::set<NiNode*> visited{node};
+		while (parent && visited.insert(parent).second) {
 			xform = parent->GetTransformToParent().ComposeTransforms(xform);
 			parent = GetParentNode(parent);
 		}
